@@ -4,13 +4,28 @@
 (* enumerates EVERY subset of the four messages {RA, RB, SB, SA} together   *)
 (* with a tamper kind; the driver runs each with real keys and TraceSM2     *)
 (* judges every step against GB/T 32918.3.                                   *)
+(* Second family ("forge"): the malicious responder of an invalid-curve     *)
+(* attack.  R_B is NOT on the curve and S_B is the confirmation value the    *)
+(* initiator itself would compute from that point (the addition formulas do  *)
+(* not involve b, so U = [t_A](P_B + [xbar]R_B) is well defined) -- computed  *)
+(* here by the specification for the Annex keys.  A must reject it for the   *)
+(* curve equation alone; an implementation that relies on the S_B comparison *)
+(* accepts it.                                                                *)
 (***************************************************************************)
-EXTENDS Naturals, Sequences, FiniteSets, TLC, Json
+EXTENDS SM2, FiniteSets, Json
 Msgs == {"RA", "RB", "SB", "SA"}
 Kinds == {"other", "offcurve", "infinity", "bitflip", "rerand"}
 VARIABLES ksub, kkind
 Init == ksub = {} /\ kkind = "none"
 Next == kkind = "none" /\ \E s \in SUBSET Msgs, k \in Kinds : (s = {} => k = "other") /\ ksub' = s /\ kkind' = k
 InSub(m) == IF m \in ksub THEN 1 ELSE 0
+\* ---- forged (off-curve R_B, matching S_B) for the Annex keys, klen 16 ----
+FRA == Mul(KXRA, G)
+FRB == Mul(KXRB, G)
+OffCurve == << <<FRB[1], C!FAdd(FRB[2], <<1>>)>>, <<C!FAdd(FRB[1], <<1>>), FRB[2]>>, <<FRA[1], FRB[2]>>, << <<5>>, <<1>> >>, <<FRB[2], FRB[1]>> >>
+ForgeOf(rb) == KxInitiator(BFromBE(KXDA), BFromBE(KXRA), FRA, PBx, rb, ZA(ID16, PAx), ZA(ID16, PBx), 16)
+ForgeRec(rb, f) == [kind |-> "forge", da |-> KXDA, db |-> KXDB, ra |-> KXRA, rbx |-> B32(rb[1]), rby |-> B32(rb[2]), sb |-> f.sb, usable |-> IF f.v = C!Inf THEN 0 ELSE 1]
+ASSUME \A j \in 1..Len(OffCurve) : ~C!OnCurve(OffCurve[j])
+ASSUME \A j \in 1..Len(OffCurve) : PrintT(<<"PLAN", ToJson(ForgeRec(OffCurve[j], ForgeOf(OffCurve[j])))>>)
 Emit == kkind # "none" => PrintT(<<"PLAN", ToJson([ra |-> InSub("RA"), rb |-> InSub("RB"), sb |-> InSub("SB"), sa |-> InSub("SA"), kind |-> kkind])>>)
 =============================================================================
